@@ -72,6 +72,13 @@ static void exec(const Op &op) {
         size_t k = std::min((size_t)op.n, x.writableSize());
         if (k) fill(x.writableBegin(), k);      // writes only inside the advertised writable area
         x.hasWritten((size_t)op.n); pos += (long long)k; extra = ",\"ret\":" + std::to_string(k);
+    } else if (op.o == "wfill") {       // the writer fills (part of) the advertised writable area once, without any call into the buffer ...
+        Buffer &x = *slot[op.b];
+        size_t k = std::min((size_t)op.n, x.writableSize());
+        if (k) fill(x.writableBegin(), k);
+        pos += (long long)k; extra = ",\"ret\":" + std::to_string(k);
+    } else if (op.o == "commitp") {     // ... and commits it piece by piece: a bare hasWritten(n) of bytes filled before
+        slot[op.b]->hasWritten((size_t)op.n);
     } else if (op.o == "fetch") {
         std::unique_ptr<uint8_t[]> dst(new uint8_t[(size_t)op.n ? (size_t)op.n : 1]);   // exactly n bytes of room
         size_t r = slot[op.b]->fetch(dst.get(), (size_t)op.n);
@@ -113,10 +120,10 @@ int main(int argc, char **argv) {
         int nexec = atoi(argv[3]), nops = atoi(argv[4]); long long maxsize = atoll(argv[5]);
         vh::T().open(argv[6]);
         static const char *ops[] = {"construct", "destroy", "append", "append", "append", "ensure", "commit", "commit", "fetch", "fetch",
-                                    "consume", "consume", "consumeall", "shrink", "reset", "copyc", "copya", "movec", "movea", "swap"};
+                                    "consume", "consume", "consumeall", "shrink", "reset", "copyc", "copya", "movec", "movea", "swap", "wfill"};
         for (int x = 0; x < nexec; ++x) {
             // size profile of this execution: tiny / around kInitialSize / large
-            long long cap = rng.chance(40) ? 8 : rng.chance(60) ? 600 : maxsize;
+            long long cap = rng.chance(40) ? 8 : rng.chance(60) ? 600 : rng.chance(80) ? std::min(maxsize, 200000LL) : maxsize;
             for (int i = 0; i < nops; ++i) {
                 Op op;
                 for (int tries = 0; tries < 50; ++tries) {
@@ -142,6 +149,14 @@ int main(int argc, char **argv) {
                 if (op.o == "construct") op.n = rng.chance(30) ? 0 : rng.chance(50) ? rng.range(0, 8) : rng.range(0, 300);
                 if (op.n > maxsize) op.n = maxsize;
                 exec(op);
+                if (op.o == "wfill") {           // commit what was just filled in 1..4 pieces (zero-length commits in between), sometimes not all of it
+                    long long left = std::min(op.n, w);
+                    for (int piece = 0; piece < 4 && !rng.chance(15); ++piece) {
+                        Op c; c.o = "commitp"; c.b = op.b;
+                        c.n = rng.chance(20) ? 0 : rng.chance(40) ? left : left > 0 ? rng.range(0, left) : 0;
+                        exec(c); left -= c.n; ++i;
+                    }
+                }
             }
             reset_all();
         }
